@@ -473,7 +473,8 @@ def _weights_conf(tree) -> str:
         fail(fulls[0], "np.full(shape=..., fill_value=self.weighting[processor_id]) expected")
     src = ast.unparse(shape)
     geo = ("processor.detector.geometry.row", "processor.detector.geometry.col")
-    if src in ("target_data.shape", "np.shape(target_data)", "tuple(target_data.shape)"):
+    # (the restricted result has the target's shape up to a leading axis of length 1 whenever a fitness is computed)
+    if src in ("target_data.shape", "np.shape(target_data)", "tuple(target_data.shape)", "simulated_data.shape"):
         sh = "ShTarget"
     elif isinstance(shape, ast.Tuple) and tuple(ast.unparse(e) for e in shape.elts) == geo:
         sh = "ShDetector"
